@@ -931,6 +931,29 @@ fn run_batch(path: &Path, f: &FmtDoc, flush: Option<i64>, pr: &SinkParams, chunk
     Ok(RunResult { queues, trace })
 }
 
+/// a lock-order or hand-over bug in write_response can deadlock the writers: the batch runs in its
+/// own thread and is given up (threads leaked) after WATCHDOG_S seconds; a hang is an outcome
+const WATCHDOG_S: u64 = 60;
+/// after two hangs a stream stops generating cases (every further case would wait for the watchdog)
+static HANGS: std::sync::atomic::AtomicUsize = std::sync::atomic::AtomicUsize::new(0);
+fn too_many_hangs() -> bool {
+    HANGS.load(std::sync::atomic::Ordering::SeqCst) >= 2
+}
+fn run_batch_guarded(path: &Path, f: &FmtDoc, flush: Option<i64>, pr: &SinkParams, chunks: Vec<Vec<(usize, Value)>>) -> Result<RunResult, String> {
+    let (tx, rx) = std::sync::mpsc::channel();
+    let (path, f, pr) = (path.to_path_buf(), f.clone(), pr.clone());
+    std::thread::spawn(move || {
+        let _ = tx.send(run_batch(&path, &f, flush, &pr, chunks));
+    });
+    match rx.recv_timeout(std::time::Duration::from_secs(WATCHDOG_S)) {
+        Ok(r) => r,
+        Err(std::sync::mpsc::RecvTimeoutError::Timeout) => {
+            HANGS.fetch_add(1, std::sync::atomic::Ordering::SeqCst);
+            Err(format!("hang:write_response-did-not-return-within-{}s", WATCHDOG_S))
+        }
+        Err(_) => Err("panic-in-the-writers".into()),
+    }
+}
 fn coq_dig(b: &[u8]) -> String {
     format!("({}, {})", coq_z(b.len() as i128), coq_z(hash63(b) as i128))
 }
@@ -975,6 +998,9 @@ fn enc_event(t: usize, e: &SinkEvent) -> u64 {
 }
 
 fn sink_case(st: &mut Stream, pr: &SinkParams, family: &str, dir: &Path) {
+    if too_many_hangs() {
+        return;
+    }
     let id = st.next_id();
     let mut r = Rng(pr.seed);
     let f = sink_format(pr);
@@ -1003,7 +1029,7 @@ fn sink_case(st: &mut Stream, pr: &SinkParams, family: &str, dir: &Path) {
             let c = i * nchunks / pr.responses.max(1);
             chunks[c].push((first + i, v));
         }
-        match run_batch(&path, &f, pr.flush[run % pr.flush.len()], pr, chunks) {
+        match run_batch_guarded(&path, &f, pr.flush[run % pr.flush.len()], pr, chunks) {
             Ok(rr) => runs.push(rr),
             Err(e) => {
                 failure = Some(e);
@@ -1021,7 +1047,7 @@ fn sink_case(st: &mut Stream, pr: &SinkParams, family: &str, dir: &Path) {
     }
     .min(bytes.len());
     let (prefix, rest) = bytes.split_at(base_len);
-    let mut ok = failure.clone().map(|e| format!("F:{}", e)).unwrap_or_else(|| "T".into());
+    let mut ok = failure.clone().map(|e| format!("F:{}", e.replace(' ', "_").chars().take(80).collect::<String>())).unwrap_or_else(|| "T".into());
     let mut recs: Vec<&[u8]> = vec![];
     let mut fields: Vec<Vec<Vec<u8>>> = vec![];
     if pr.format == 0 {
@@ -1227,7 +1253,7 @@ fn sink_stream(a: &Args) {
     }
     // ---- random ----
     let mut rng = Rng::new(a.seed);
-    while st.next_id() < a.n {
+    while st.next_id() < a.n && !too_many_hangs() {
         let mut r = rng.fork();
         let threads = match r.below(4) { 0 => 1 + r.below(3), 1 => 16, _ => 1 + r.below(16) } as usize;
         let rayon = r.chance(1, 2);
@@ -1250,6 +1276,7 @@ fn sink_stream(a: &Args) {
     }
     let _ = std::fs::remove_dir_all(&dir);
     st.finish();
+    std::process::exit(0); // do not wait for leaked writer threads
 }
 
 fn main() {
@@ -1335,7 +1362,10 @@ fn app_mapping(sorted: bool) -> FmtDoc {
     )
 }
 
-fn app_case(st: &mut Stream, app: &CompassApp, pr: &AppParams, family: &str, dir: &Path) {
+fn app_case(st: &mut Stream, app: &Arc<CompassApp>, pr: &AppParams, family: &str, dir: &Path) -> bool {
+    if too_many_hangs() {
+        return false;
+    }
     let id = st.next_id();
     let mut r = Rng(pr.seed);
     let f = if pr.csv { app_mapping(pr.sorted) } else { FmtDoc::Json(true) };
@@ -1347,6 +1377,7 @@ fn app_case(st: &mut Stream, app: &CompassApp, pr: &AppParams, family: &str, dir
     let mut total_expected = 0usize;
     let mut kinds = std::collections::BTreeSet::new();
     let mut prev_len = 0usize;
+    let mut hung = false;
     for _run in 0..pr.runs {
         let queries: Vec<Value> = (0..pr.queries)
             .map(|_| match r.below(8) {
@@ -1366,10 +1397,25 @@ fn app_case(st: &mut Stream, app: &CompassApp, pr: &AppParams, family: &str, dir
             cfg["response_output_policy"] = pol;
         }
         let _ = take_sink_trace();
-        let returned = match app.run(queries.clone(), Some(&cfg)) {
-            Ok(v) => v,
-            Err(e) => {
-                ok = format!("F:run-failed-{}", e.to_string().chars().take(60).collect::<String>().replace(' ', "_"));
+        let (tx, rx) = std::sync::mpsc::channel();
+        let (app2, q2, cfg2) = (app.clone(), queries.clone(), cfg.clone());
+        std::thread::spawn(move || {
+            let _ = tx.send(app2.run(q2, Some(&cfg2)).map_err(|e| e.to_string()));
+        });
+        let returned = match rx.recv_timeout(std::time::Duration::from_secs(WATCHDOG_S)) {
+            Ok(Ok(v)) => v,
+            Ok(Err(e)) => {
+                ok = format!("F:run-failed-{}", e.chars().take(60).collect::<String>().replace(' ', "_"));
+                break;
+            }
+            Err(std::sync::mpsc::RecvTimeoutError::Timeout) => {
+                ok = format!("F:hang:run-did-not-return-within-{}s", WATCHDOG_S);
+                hung = true;
+                HANGS.fetch_add(2, std::sync::atomic::Ordering::SeqCst);
+                break;
+            }
+            Err(_) => {
+                ok = "F:panic-in-run".into();
                 break;
             }
         };
@@ -1496,6 +1542,7 @@ fn app_case(st: &mut Stream, app: &CompassApp, pr: &AppParams, family: &str, dir
         vec![format!("I {} {}", id, iline)],
         desc,
     );
+    !hung
 }
 
 fn app_stream(a: &Args) {
@@ -1506,8 +1553,8 @@ fn app_stream(a: &Args) {
     let toml = app_toml(&dir);
     let conf = dir.join("conf.toml");
     std::fs::write(&conf, &toml).unwrap();
-    let app = CompassApp::try_from_config_toml_string(toml, conf.to_str().unwrap().to_string(), &CompassAppBuilder::default())
-        .expect("CompassApp builds from the speeds_test configuration");
+    let app = Arc::new(CompassApp::try_from_config_toml_string(toml, conf.to_str().unwrap().to_string(), &CompassAppBuilder::default())
+        .expect("CompassApp builds from the speeds_test configuration"));
     if let Some(pth) = &a.replay {
         st.full = true;
         let v: Value = serde_json::from_str(&std::fs::read_to_string(pth).unwrap()).unwrap();
@@ -1534,8 +1581,11 @@ fn app_stream(a: &Args) {
             csv: r.chance(1, 2), sorted: r.chance(1, 2), flush: if r.chance(1, 2) { None } else { Some(1 + r.below(9) as i64) },
             runs: if r.chance(1, 4) { 2 } else { 1 }, toml_policy: false,
         };
-        app_case(&mut st, &app, &pr, "random", &dir);
+        if !app_case(&mut st, &app, &pr, "random", &dir) {
+            break; // the global rayon pool holds deadlocked workers: nothing more can be learnt in this process
+        }
     }
     let _ = std::fs::remove_dir_all(&dir);
     st.finish();
+    std::process::exit(0); // do not wait for leaked writer threads
 }
